@@ -8,7 +8,6 @@ import (
 	"slices"
 	"strings"
 	"testing"
-	"time"
 )
 
 func c13Record(in c13Input, workdir string, tags []string) (Record, *c13Case) {
@@ -290,7 +289,10 @@ func runC13(o Opts) {
 		case "hist", "doc", "conc", "slow", "life", "retain", "fcfile":
 			// the real store runs in a worker process: a crash or hang costs this one input only
 			want := corpus == "" && o.Replay == "" && ((in.Kind == "hist" && nself["hist"] < 4) || (in.Kind == "conc" && nself["conc"] < 2) || (in.Kind == "slow" && nself["slow"] < 2) || (in.Kind == "life" && nself["life"] < 2) || (in.Kind == "retain" && nself["retain"] < 2))
-			recs := pool.do(c13Job{In: in, Tags: tags, Corpus: corpus, Self: want}, 30*time.Second)
+			if pool.skip(in.Kind) {
+				return // this kind keeps hanging: see the summary record at the end of the run
+			}
+			recs := pool.do(c13Job{In: in, Tags: tags, Corpus: corpus, Self: want}, c13ScenarioTimeout)
 			id := out.n
 			out.Emit(recs[0])
 			if len(recs) > 1 {
@@ -417,6 +419,12 @@ func runC13(o Opts) {
 
 	for _, rec := range selfRecs {
 		out.Emit(rec)
+	}
+	// one summary record per scenario kind that was cut short because it kept hanging
+	for kind, n := range pool.skipped {
+		out.Emit(Record{Kind: kind, Key: "skipped:" + kind, Tags: []string{"skipped-after-hangs"},
+			Obs:    map[string]any{"skipped": n, "hangs_of_this_kind": pool.hangs[kind], "hangs_in_run": pool.allHangs},
+			Direct: &DirectVerdict{OK: true, What: fmt.Sprintf("%d further %q scenarios were not run: %d scenarios of this kind had already hung (time-out %v each, reported as violations with their inputs)", n, kind, pool.hangs[kind], c13ScenarioTimeout)}})
 	}
 	// self-tests of the trace monitor: a non-atomic write and a 0644 temporary must be rejected
 	for _, bad := range []string{
